@@ -125,6 +125,8 @@ func c16(c *core.Ctx) {
 	}
 
 	c.Rule("C16.fraction", "the renewal delay is the revised lifetime scaled by a constant in [0.5, 1) and the expiry delay by a constant >= 1.25", 2)
+	c.Rule("C16.lifetime", "the renewal timer is armed with the scheduled instance's own revisedLifetime × K, and revisedLifetime is only written by handleOpenSecureChannelResponse from the response's SecurityToken.RevisedLifetime (capped by Config.Lifetime)", 4)
+	lifetimeF := field(c, "uasc", "channelInstance", "revisedLifetime")
 	c.Rule("C16.trunc", "no time.Duration(x) conversion of a non-constant float number of seconds/milliseconds that is afterwards multiplied by a time unit: the fraction is lost before scaling (a 2.5 s token would be renewed after 1 s, a 1.2 s token immediately)", 1)
 	c.Rule("C16.once", "scheduleRenewal is started only from handleOpenSecureChannelResponse, as a goroutine, for the installed instance, on the `kind == client` edge, exactly once on every path from the installation of a client token to return", 1)
 	c.Rule("C16.gate", "renew() holds the request gate for the whole exchange: reqLocker.lock() dominates pendingReq.Wait() which dominates the call of open(), and reqLocker.unlock() is deferred before them", 1)
@@ -145,7 +147,46 @@ func c16(c *core.Ctx) {
 		for _, s := range sites {
 			ok := s.k >= t.lo && s.k < t.hi
 			c.Ob("C16.fraction", fname(t.f)+"·lifetime×K", pos(c, s.in), ok, t.what+" factor K="+constant.MakeFloat64(s.k).String())
+			if t.f == schedRen && lifetimeF != nil {
+				okL, why := scaledFromInstanceLifetime(t.f, s, lifetimeF)
+				c.Ob("C16.lifetime", fname(t.f)+"·scaled quantity", pos(c, s.in), okL, why)
+				armed := false
+				for _, a := range timerArgs(t.f) {
+					if inBackSlice(a, s.in) {
+						armed = true
+					}
+				}
+				c.Ob("C16.lifetime", fname(t.f)+"·timer armed with the scaled lifetime", pos(c, s.in), armed, "a time.NewTimer/After duration in the function is computed from lifetime×K: "+boolStr(armed))
+			}
 		}
+	}
+	// the lifetime of a client token is the one the server revised (never longer than requested)
+	if lifetimeF != nil {
+		revised := field(c, "ua", "ChannelSecurityToken", "RevisedLifetime")
+		cfgLife := field(c, "uasc", "Config", "Lifetime")
+		fromResp := 0
+		for _, f := range libFns(c) {
+			for _, a := range ssax.FieldAccesses(f, lifetimeF) {
+				if a.Kind != ssax.Write {
+					continue
+				}
+				st, ok := a.Use.(*ssa.Store)
+				if !ok {
+					continue
+				}
+				fld, _ := scaledBase(st.Val)
+				okS := fld != nil && (fld == revised || fld == cfgLife)
+				if fld == revised {
+					fromResp++
+				}
+				what := "a value that is not a lifetime field"
+				if fld != nil {
+					what = ssax.FieldString(fld)
+				}
+				c.Ob("C16.lifetime", fname(f)+"·revisedLifetime = "+what, pos(c, st), okS && f == hResp, "the token lifetime is set from "+what+" in "+fname(f))
+			}
+		}
+		c.Ob("C16.lifetime", "revisedLifetime is taken from the response's SecurityToken.RevisedLifetime", c.P.Pos(hResp.Pos()), fromResp >= 1, "stores from ChannelSecurityToken.RevisedLifetime: "+itoa(fromResp))
 	}
 	// (ii) truncation
 	for _, f := range []*ssa.Function{schedRen, schedExp} {
@@ -304,23 +345,7 @@ func c16(c *core.Ctx) {
 		default:
 			c.Ob("C16.gate", key, pos(c, openC), true, "reqLocker.lock dom pendingReq.Wait dom open; unlock deferred")
 		}
-		// senders honour the gate: SendRequestWithTimeout waits on reqLocker before fetching the active instance
-		srt := fn(c, "uasc", "SecureChannel", "SendRequestWithTimeout")
-		waitIf := obj(c, "uasc", "conditionLocker", "waitIfLock")
-		getActive := obj(c, "uasc", "SecureChannel", "getActiveChannelInstance")
-		if srt != nil && waitIf != nil && getActive != nil {
-			var w, g ssa.CallInstruction
-			for _, call := range ssax.Calls(srt) {
-				if ssax.Callee(call) == waitIf && recvFromField(call, reqLocker) {
-					w = call
-				}
-				if ssax.Callee(call) == getActive {
-					g = call
-				}
-			}
-			ok := w != nil && g != nil && ssax.Dominates(w, g)
-			c.Ob("C16.gate", fname(srt)+"·waitIfLock before getActiveChannelInstance", c.P.Pos(srt.Pos()), ok, "senders wait on the renewal gate before choosing the token instance: "+boolStr(ok))
-		}
+		senderHonoursGate(c, "C16.gate")
 	}
 	// (v) overlap
 	{
@@ -428,4 +453,137 @@ func constOf(c *core.Ctx, short, name string) *int64 {
 		return nil
 	}
 	return &v
+}
+
+// scaledBase walks from the non-constant operand of a `x * K` scaling back through conversions, unit
+// getters of time.Duration (Seconds, Milliseconds, ...) and arithmetic with constants to the field load the
+// quantity comes from. It returns the field and the object it is loaded from (nil, nil if it is anything else).
+func scaledBase(v ssa.Value) (*types.Var, ssa.Value) {
+	for i := 0; i < 12; i++ {
+		switch x := v.(type) {
+		case *ssa.Convert:
+			v = x.X
+		case *ssa.ChangeType:
+			v = x.X
+		case *ssa.Call:
+			cal := ssax.Callee(x)
+			if cal == nil || cal.Pkg() == nil || cal.Pkg().Path() != "time" || len(x.Call.Args) != 1 {
+				return nil, nil
+			}
+			v = x.Call.Args[0]
+		case *ssa.BinOp:
+			if _, ok := x.Y.(*ssa.Const); ok {
+				v = x.X
+			} else if _, ok := x.X.(*ssa.Const); ok {
+				v = x.Y
+			} else {
+				return nil, nil
+			}
+		case *ssa.UnOp:
+			if x.Op != token.MUL {
+				return nil, nil
+			}
+			fa, ok := x.X.(*ssa.FieldAddr)
+			if !ok {
+				return nil, nil
+			}
+			st := fa.X.Type().Underlying().(*types.Pointer).Elem().Underlying().(*types.Struct)
+			return st.Field(fa.Field), fa.X
+		default:
+			return nil, nil
+		}
+	}
+	return nil, nil
+}
+
+// scaledFromInstanceLifetime: the quantity scaled at site s is <param instance>.revisedLifetime.
+func scaledFromInstanceLifetime(f *ssa.Function, s scaleSite, lifetime *types.Var) (bool, string) {
+	nonConst := s.in.X
+	if _, ok := nonConst.(*ssa.Const); ok {
+		nonConst = s.in.Y
+	}
+	fld, base := scaledBase(nonConst)
+	if fld == nil {
+		return false, "the scaled quantity " + ssax.Path(nonConst) + " is not a field load"
+	}
+	if fld != lifetime {
+		return false, "the scaled quantity is " + ssax.FieldString(fld) + ", not the token's own " + ssax.FieldString(lifetime)
+	}
+	p, ok := base.(*ssa.Parameter)
+	if !ok || len(f.Params) < 2 || p != f.Params[1] {
+		return false, "the lifetime is read from " + ssax.Path(base) + ", not from the instance being scheduled"
+	}
+	return true, "scaled quantity is " + p.Name() + "." + fld.Name()
+}
+
+// inBackSlice reports whether target is among the transitive operands of v (within one function).
+func inBackSlice(v ssa.Value, target ssa.Value) bool {
+	seen := map[ssa.Value]bool{}
+	var walk func(ssa.Value) bool
+	walk = func(x ssa.Value) bool {
+		if x == nil || seen[x] {
+			return false
+		}
+		seen[x] = true
+		if x == target {
+			return true
+		}
+		in, ok := x.(ssa.Instruction)
+		if !ok {
+			return false
+		}
+		for _, op := range in.Operands(nil) {
+			if *op != nil && walk(*op) {
+				return true
+			}
+		}
+		return false
+	}
+	return walk(v)
+}
+
+// timerArgs lists the duration arguments of time.NewTimer / time.After / time.AfterFunc calls in f.
+func timerArgs(f *ssa.Function) []ssa.Value {
+	var out []ssa.Value
+	for _, b := range f.Blocks {
+		for _, in := range b.Instrs {
+			call, ok := in.(ssa.CallInstruction)
+			if !ok {
+				continue
+			}
+			cal := ssax.Callee(call)
+			if cal == nil || cal.Pkg() == nil || cal.Pkg().Path() != "time" {
+				continue
+			}
+			switch cal.Name() {
+			case "NewTimer", "After", "AfterFunc", "Sleep":
+				out = append(out, call.Common().Args[0])
+			}
+		}
+	}
+	return out
+}
+
+// senderHonoursGate: SendRequestWithTimeout waits on the request gate before it fetches the active token instance.
+// A sender that picks the instance first and then parks at the gate continues, after the renewal, with the superseded
+// instance: it numbers its chunks from the stale counter (C11) and secures them with the old keys (C16).
+func senderHonoursGate(c *core.Ctx, rule string) {
+	reqLocker := field(c, "uasc", "SecureChannel", "reqLocker")
+	srt := fn(c, "uasc", "SecureChannel", "SendRequestWithTimeout")
+	waitIf := obj(c, "uasc", "conditionLocker", "waitIfLock")
+	getActive := obj(c, "uasc", "SecureChannel", "getActiveChannelInstance")
+	if reqLocker == nil || srt == nil || waitIf == nil || getActive == nil {
+		return
+	}
+	var w, g ssa.CallInstruction
+	for _, call := range ssax.Calls(srt) {
+		if ssax.Callee(call) == waitIf && recvFromField(call, reqLocker) {
+			w = call
+		}
+		if ssax.Callee(call) == getActive {
+			g = call
+		}
+	}
+	ok := w != nil && g != nil && ssax.Dominates(w, g)
+	c.Ob(rule, fname(srt)+"·waitIfLock before getActiveChannelInstance", c.P.Pos(srt.Pos()), ok, "senders wait on the renewal gate before choosing the token instance: "+boolStr(ok))
 }
